@@ -172,19 +172,22 @@ def call(fn, *a, **k):
 
 
 # ----------------------------------------------------------------------------- Lean
-def _locked(cmd, cwd, timeout):
+def _locked(cmd, cwd, timeout, pre=None):
     os.makedirs(WORK, exist_ok=True)
     with open(os.path.join(WORK, "lake.lock"), "w") as lk:
         fcntl.flock(lk, fcntl.LOCK_EX)
         try:
+            if pre is not None:
+                pre()
             return subprocess.run(cmd, cwd=cwd, capture_output=True, text=True, timeout=timeout)
         finally:
             fcntl.flock(lk, fcntl.LOCK_UN)
 
 
-def lake_build(targets, timeout=3000):
+def lake_build(targets, timeout=3000, pre=None):
+    """`lake build` under the project lock; `pre` (e.g. the translator) runs under the same lock just before."""
     try:
-        r = _locked(["lake", "build"] + targets, LEAN_DIR, timeout)
+        r = _locked(["lake", "build"] + targets, LEAN_DIR, timeout, pre)
     except FileNotFoundError as e:
         raise Infra("lake not found") from e
     except subprocess.TimeoutExpired as e:
